@@ -1,12 +1,14 @@
 #!/bin/sh
 # Offline setup: nothing to build (pyg-base is an editable install of /repo; the harness is plain
-# Python under /venv; TLC is pre-installed).  Parse every specification module and smoke-test TLC.
+# Python under /venv; TLC is pre-installed).  Parse every specification module (8 at a time) and import the library.
 set -e
 cd "$(dirname "$0")/spec"
+out=$(mktemp -d /tmp/verif-sany.XXXXXX); trap 'rm -rf "$out"' EXIT
+ls *.tla | xargs -P 8 -I{} sh -c 'java -Xss16m -cp /opt/veriftools/tla/tla2tools.jar:/opt/veriftools/tla/CommunityModules-deps.jar tla2sany.SANY "$1" > "$2/$1.log" 2>&1 || echo failed >> "$2/$1.log"' _ {} "$out"
+bad=0
 for f in *.tla; do
-  java -cp /opt/veriftools/tla/tla2tools.jar:/opt/veriftools/tla/CommunityModules-deps.jar tla2sany.SANY "$f" > /tmp/sany.$$ 2>&1 || { cat /tmp/sany.$$; rm -f /tmp/sany.$$; echo "SANY failed on $f"; exit 1; }
-  if grep -q -e "Semantic errors" -e "Parse Error" -e "Fatal errors" /tmp/sany.$$; then cat /tmp/sany.$$; rm -f /tmp/sany.$$; echo "SANY failed on $f"; exit 1; fi
+  if [ ! -s "$out/$f.log" ] || grep -q -e "Semantic errors" -e "Parse Error" -e "Fatal errors" -e "^failed$" -e "Could not" "$out/$f.log"; then cat "$out/$f.log"; echo "SANY failed on $f"; bad=1; fi
 done
-rm -f /tmp/sany.$$
+[ $bad -eq 0 ] || exit 1
 /venv/bin/python -c "import pyg_base, pandas, numpy; print('pyg_base from', pyg_base.__file__)"
 echo setup ok
